@@ -147,6 +147,12 @@ let rec rev = function
 | [] -> []
 | x :: l' -> app (rev l') (x :: [])
 
+(** val concat : 'a1 list list -> 'a1 list **)
+
+let rec concat = function
+| [] -> []
+| x :: l0 -> app x (concat l0)
+
 (** val map : ('a1 -> 'a2) -> 'a1 list -> 'a2 list **)
 
 let rec map f = function
@@ -273,6 +279,13 @@ module Pos =
     | XI p -> add y (XO (mul p y))
     | XO p -> XO (mul p y)
     | XH -> y
+
+  (** val size_nat : positive -> nat **)
+
+  let rec size_nat = function
+  | XI p0 -> S (size_nat p0)
+  | XO p0 -> S (size_nat p0)
+  | XH -> S O
 
   (** val compare_cont : comparison -> positive -> positive -> comparison **)
 
@@ -527,6 +540,11 @@ module Z =
 
   let div a b =
     let (q, _) = div_eucl a b in q
+
+  (** val modulo : z -> z -> z **)
+
+  let modulo a b =
+    let (_, r) = div_eucl a b in r
  end
 
 type err =
@@ -566,6 +584,18 @@ let rec set_nth l n v =
      | S n0 -> bind (set_nth t n0 v) (fun t' -> Ok (x :: t')))
 
 type str = z list
+
+(** val str_eqb : str -> str -> bool **)
+
+let rec str_eqb a b =
+  match a with
+  | [] -> (match b with
+           | [] -> true
+           | _ :: _ -> false)
+  | x :: a0 ->
+    (match b with
+     | [] -> false
+     | y :: b0 -> (&&) (Z.eqb x y) (str_eqb a0 b0))
 
 (** val last_n : nat -> 'a1 list -> 'a1 list **)
 
@@ -2060,7 +2090,7 @@ let fuzzy_v2 co sc cs nm fwd is_bytes text pat withPos slabCap =
                                            Z.to_nat (Z.mul width (Z.of_nat m))
                                          in
                                          let blank = repeat None cells in
-                                         let seg = fun l ->
+                                         let seg0 = fun l ->
                                            firstn (Z.to_nat width)
                                              (skipn f0n l)
                                          in
@@ -2069,10 +2099,10 @@ let fuzzy_v2 co sc cs nm fwd is_bytes text pat withPos slabCap =
                                                 (Z.add lastIdx (Zpos XH)))
                                          then Err OutOfRange
                                          else bind
-                                                (put_row blank Z0 (seg h0))
+                                                (put_row blank Z0 (seg0 h0))
                                                 (fun h ->
                                                 bind
-                                                  (put_row blank Z0 (seg c0))
+                                                  (put_row blank Z0 (seg0 c0))
                                                   (fun c ->
                                                   bind
                                                     (p3_rows fwd t b h c
@@ -2731,11 +2761,1320 @@ let dispatch_history op a =
             then Some (vstrs (entries (as_str a)))
             else None
 
+(** val c_sq : z **)
+
+let c_sq =
+  Zpos (XI (XI (XI (XO (XO XH)))))
+
+(** val c_bs : z **)
+
+let c_bs =
+  Zpos (XO (XO (XI (XI (XI (XO XH))))))
+
+(** val c_sp : z **)
+
+let c_sp =
+  Zpos (XO (XO (XO (XO (XO XH)))))
+
+(** val c_nl : z **)
+
+let c_nl =
+  Zpos (XO (XI (XO XH)))
+
+(** val is_meta : z -> bool **)
+
+let is_meta c =
+  existsb (Z.eqb c) (Z0 :: ((Zpos (XO (XO (XI (XO (XO XH)))))) :: ((Zpos (XO
+    (XO (XO (XO (XO (XI XH))))))) :: ((Zpos (XO (XI (XO (XO (XO
+    XH)))))) :: ((Zpos (XI (XI (XO (XI (XI XH)))))) :: ((Zpos (XO (XI (XI (XO
+    (XO XH)))))) :: ((Zpos (XO (XO (XI (XI (XI (XI XH))))))) :: ((Zpos (XO
+    (XO (XI (XI (XI XH)))))) :: ((Zpos (XO (XI (XI (XI (XI XH)))))) :: ((Zpos
+    (XO (XO (XO (XI (XO XH)))))) :: ((Zpos (XI (XO (XO (XI (XO
+    XH)))))) :: ((Zpos (XO (XI (XO (XI (XO XH)))))) :: ((Zpos (XI (XI (XI (XI
+    (XI XH)))))) :: ((Zpos (XI (XI (XO (XI (XI (XO XH))))))) :: ((Zpos (XI
+    (XO (XI (XI (XI (XO XH))))))) :: ((Zpos (XI (XI (XO (XI (XI (XI
+    XH))))))) :: ((Zpos (XI (XO (XI (XI (XI (XI XH))))))) :: ((Zpos (XO (XI
+    (XI (XI (XI (XI XH))))))) :: ((Zpos (XI (XI (XO (XO (XO
+    XH)))))) :: ((Zpos (XI (XO (XO (XO (XO XH)))))) :: ((Zpos (XO (XI (XO
+    XH)))) :: ((Zpos (XI (XO (XO XH)))) :: []))))))))))))))))))))))
+
+type mode =
+| Out
+| InWord
+| InSQ
+| Esc
+
+type lst = { l_mode : mode; l_cur : str; l_acc : str list }
+
+(** val step : lst -> z -> lst option **)
+
+let step s c =
+  match s.l_mode with
+  | Out ->
+    if Z.eqb c c_sp
+    then Some { l_mode = Out; l_cur = []; l_acc = s.l_acc }
+    else if Z.eqb c c_sq
+         then Some { l_mode = InSQ; l_cur = []; l_acc = s.l_acc }
+         else if Z.eqb c c_bs
+              then Some { l_mode = Esc; l_cur = []; l_acc = s.l_acc }
+              else if is_meta c
+                   then None
+                   else Some { l_mode = InWord; l_cur = (c :: []); l_acc =
+                          s.l_acc }
+  | InWord ->
+    if Z.eqb c c_sp
+    then Some { l_mode = Out; l_cur = []; l_acc = ((rev s.l_cur) :: s.l_acc) }
+    else if Z.eqb c c_sq
+         then Some { l_mode = InSQ; l_cur = s.l_cur; l_acc = s.l_acc }
+         else if Z.eqb c c_bs
+              then Some { l_mode = Esc; l_cur = s.l_cur; l_acc = s.l_acc }
+              else if is_meta c
+                   then None
+                   else Some { l_mode = InWord; l_cur = (c :: s.l_cur);
+                          l_acc = s.l_acc }
+  | InSQ ->
+    if Z.eqb c c_sq
+    then Some { l_mode = InWord; l_cur = s.l_cur; l_acc = s.l_acc }
+    else Some { l_mode = InSQ; l_cur = (c :: s.l_cur); l_acc = s.l_acc }
+  | Esc ->
+    if Z.eqb c c_nl
+    then None
+    else Some { l_mode = InWord; l_cur = (c :: s.l_cur); l_acc = s.l_acc }
+
+(** val run : lst -> str -> lst option **)
+
+let rec run s = function
+| [] -> Some s
+| c :: r -> (match step s c with
+             | Some s' -> run s' r
+             | None -> None)
+
+(** val finish : lst -> str list option **)
+
+let finish s =
+  match s.l_mode with
+  | Out -> Some (rev s.l_acc)
+  | InWord -> Some (rev ((rev s.l_cur) :: s.l_acc))
+  | _ -> None
+
+(** val l_init : lst **)
+
+let l_init =
+  { l_mode = Out; l_cur = []; l_acc = [] }
+
+(** val sh_words : str -> str list option **)
+
+let sh_words t =
+  match run l_init t with
+  | Some s -> finish s
+  | None -> None
+
+type seg =
+| SLit of str
+| SWords of str list
+
+(** val feed_word : lst -> str -> lst option **)
+
+let feed_word s w =
+  match s.l_mode with
+  | Out -> Some { l_mode = InWord; l_cur = (rev w); l_acc = s.l_acc }
+  | InWord ->
+    Some { l_mode = InWord; l_cur = (app (rev w) s.l_cur); l_acc = s.l_acc }
+  | _ -> None
+
+(** val feed_words : lst -> str list -> lst option **)
+
+let rec feed_words s = function
+| [] -> Some s
+| w :: r ->
+  (match feed_word s w with
+   | Some s1 ->
+     (match r with
+      | [] -> Some s1
+      | _ :: _ ->
+        (match step s1 c_sp with
+         | Some s2 -> feed_words s2 r
+         | None -> None))
+   | None -> None)
+
+(** val feed_segs : lst -> seg list -> lst option **)
+
+let rec feed_segs s = function
+| [] -> Some s
+| s0 :: r ->
+  (match s0 with
+   | SLit t -> (match run s t with
+                | Some s' -> feed_segs s' r
+                | None -> None)
+   | SWords ws ->
+     (match feed_words s ws with
+      | Some s' -> feed_segs s' r
+      | None -> None))
+
+(** val template_words : seg list -> str list option **)
+
+let template_words gs =
+  match feed_segs l_init gs with
+  | Some s -> finish s
+  | None -> None
+
+(** val join_sp : str list -> str **)
+
+let rec join_sp = function
+| [] -> []
+| w :: r -> (match r with
+             | [] -> w
+             | _ :: _ -> app w (c_sp :: (join_sp r)))
+
+(** val esc_sh : str -> str **)
+
+let rec esc_sh = function
+| [] -> []
+| c :: r ->
+  if Z.eqb c c_sq
+  then c_sq :: (c_bs :: (c_sq :: (c_sq :: (esc_sh r))))
+  else c :: (esc_sh r)
+
+(** val esc_fish : str -> str **)
+
+let rec esc_fish = function
+| [] -> []
+| c :: r ->
+  if Z.eqb c c_bs
+  then c_bs :: (c_bs :: (esc_fish r))
+  else if Z.eqb c c_sq
+       then c_bs :: (c_sq :: (esc_fish r))
+       else c :: (esc_fish r)
+
+(** val quote_entry : bool -> str -> str **)
+
+let quote_entry fish s =
+  c_sq :: (app (if fish then esc_fish s else esc_sh s) (c_sq :: []))
+
+(** val escape_single_quote : str -> str **)
+
+let escape_single_quote s =
+  c_sq :: (app (esc_sh s) (c_sq :: []))
+
+(** val tmux_suffix : str **)
+
+let tmux_suffix =
+  (Zpos (XO (XO (XO (XO (XO XH)))))) :: ((Zpos (XI (XO (XI (XI (XO
+    XH)))))) :: ((Zpos (XI (XO (XI (XI (XO XH)))))) :: ((Zpos (XO (XI (XI (XI
+    (XO (XI XH))))))) :: ((Zpos (XI (XI (XI (XI (XO (XI XH))))))) :: ((Zpos
+    (XI (XO (XI (XI (XO XH)))))) :: ((Zpos (XO (XO (XI (XO (XI (XI
+    XH))))))) :: ((Zpos (XI (XO (XI (XI (XO (XI XH))))))) :: ((Zpos (XI (XO
+    (XI (XO (XI (XI XH))))))) :: ((Zpos (XO (XO (XO (XI (XI (XI
+    XH))))))) :: ((Zpos (XO (XO (XO (XO (XO XH)))))) :: ((Zpos (XI (XO (XI
+    (XI (XO XH)))))) :: ((Zpos (XI (XO (XI (XI (XO XH)))))) :: ((Zpos (XO (XI
+    (XI (XI (XO (XI XH))))))) :: ((Zpos (XI (XI (XI (XI (XO (XI
+    XH))))))) :: ((Zpos (XI (XO (XI (XI (XO XH)))))) :: ((Zpos (XO (XO (XO
+    (XI (XO (XI XH))))))) :: ((Zpos (XI (XO (XI (XO (XO (XI
+    XH))))))) :: ((Zpos (XI (XO (XO (XI (XO (XI XH))))))) :: ((Zpos (XI (XI
+    (XI (XO (XO (XI XH))))))) :: ((Zpos (XO (XO (XO (XI (XO (XI
+    XH))))))) :: ((Zpos (XO (XO (XI (XO (XI (XI
+    XH))))))) :: [])))))))))))))))))))))
+
+(** val tmux_args_go : str -> str list -> str **)
+
+let rec tmux_args_go acc = function
+| [] -> acc
+| a :: r -> tmux_args_go (app acc (c_sp :: (escape_single_quote a))) r
+
+(** val tmux_arg_str : str -> str list -> str **)
+
+let tmux_arg_str fzf args =
+  app (tmux_args_go (escape_single_quote fzf) args) tmux_suffix
+
+(** val export_word : str **)
+
+let export_word =
+  (Zpos (XI (XO (XI (XO (XO (XI XH))))))) :: ((Zpos (XO (XO (XO (XI (XI (XI
+    XH))))))) :: ((Zpos (XO (XO (XO (XO (XI (XI XH))))))) :: ((Zpos (XI (XI
+    (XI (XI (XO (XI XH))))))) :: ((Zpos (XO (XI (XO (XO (XI (XI
+    XH))))))) :: ((Zpos (XO (XO (XI (XO (XI (XI XH))))))) :: [])))))
+
+(** val export_line : str -> str -> str **)
+
+let export_line name value =
+  app export_word
+    (c_sp :: (app name ((Zpos (XI (XO (XI (XI (XI
+               XH)))))) :: (escape_single_quote value))))
+
+(** val strip_prefix : str -> str -> str option **)
+
+let rec strip_prefix p s =
+  match p with
+  | [] -> Some s
+  | a :: p' ->
+    (match s with
+     | [] -> None
+     | b :: s' -> if Z.eqb a b then strip_prefix p' s' else None)
+
+(** val has_prefix : str -> str -> bool **)
+
+let has_prefix p s =
+  match strip_prefix p s with
+  | Some _ -> true
+  | None -> false
+
+(** val has_suffix : str -> str -> bool **)
+
+let has_suffix p s =
+  has_prefix (rev p) (rev s)
+
+(** val trim_suffix : str -> str -> str **)
+
+let trim_suffix s p =
+  match strip_prefix (rev p) (rev s) with
+  | Some r -> rev r
+  | None -> s
+
+(** val span : (z -> bool) -> str -> nat * str **)
+
+let rec span p s = match s with
+| [] -> (O, [])
+| c :: r -> if p c then let (n, t) = span p r in ((S n), t) else (O, s)
+
+(** val join_str : str -> str list -> str **)
+
+let rec join_str sep = function
+| [] -> []
+| l :: r ->
+  (match r with
+   | [] -> l
+   | _ :: _ -> app l (app sep (join_str sep r)))
+
+(** val mid : nat -> str -> str res **)
+
+let mid a s =
+  if Nat.leb (S a) (length s)
+  then Ok (removelast (skipn a s))
+  else Err OutOfRange
+
+(** val c_lb : z **)
+
+let c_lb =
+  Zpos (XI (XI (XO (XI (XI (XI XH))))))
+
+(** val c_rb : z **)
+
+let c_rb =
+  Zpos (XI (XO (XI (XI (XI (XI XH))))))
+
+(** val in_flags : z -> bool **)
+
+let in_flags c =
+  (||)
+    ((||)
+      ((||) (Z.eqb c (Zpos (XI (XI (XO (XI (XO XH)))))))
+        (Z.eqb c (Zpos (XI (XI (XO (XO (XI (XI XH)))))))))
+      (Z.eqb c (Zpos (XO (XI (XI (XO (XO (XI XH)))))))))
+    (Z.eqb c (Zpos (XO (XI (XO (XO (XI (XI XH))))))))
+
+(** val in_range : z -> bool **)
+
+let in_range c =
+  (||)
+    ((||)
+      ((||)
+        ((&&) (Z.leb (Zpos (XO (XO (XO (XO (XI XH)))))) c)
+          (Z.leb c (Zpos (XI (XO (XO (XI (XI XH))))))))
+        (Z.eqb c (Zpos (XO (XO (XI (XI (XO XH))))))))
+      (Z.eqb c (Zpos (XI (XO (XI (XI (XO XH))))))))
+    (Z.eqb c (Zpos (XO (XI (XI (XI (XO XH)))))))
+
+(** val closes : str -> bool **)
+
+let closes = function
+| [] -> false
+| c :: _ -> Z.eqb c c_rb
+
+(** val m_a1 : str -> nat option **)
+
+let m_a1 s =
+  let (n1, r1) = span in_flags s in
+  let (n2, r2) = span in_range r1 in
+  if closes r2 then Some (add (add n1 n2) (S O)) else None
+
+(** val m_a2 : str -> nat option **)
+
+let m_a2 = function
+| [] -> None
+| q :: r ->
+  if Z.eqb q (Zpos (XI (XO (XO (XO (XI (XI XH)))))))
+  then if closes r
+       then Some (S (S O))
+       else (match r with
+             | [] -> None
+             | c :: r1 ->
+               if Z.eqb c (Zpos (XO (XI (XO (XI (XI XH))))))
+               then (match r1 with
+                     | [] ->
+                       let ns = O in
+                       let (n, r3) = span in_range r1 in
+                       (match n with
+                        | O -> None
+                        | S _ ->
+                          if closes r3
+                          then Some (add (add (add (S (S O)) ns) n) (S O))
+                          else None)
+                     | x :: r' ->
+                       if Z.eqb x (Zpos (XI (XI (XO (XO (XI (XI XH)))))))
+                       then let ns = S O in
+                            let (n, r3) = span in_range r' in
+                            (match n with
+                             | O -> None
+                             | S _ ->
+                               if closes r3
+                               then Some
+                                      (add (add (add (S (S O)) ns) n) (S O))
+                               else None)
+                       else let ns = O in
+                            let (n, r3) = span in_range r1 in
+                            (match n with
+                             | O -> None
+                             | S _ ->
+                               if closes r3
+                               then Some
+                                      (add (add (add (S (S O)) ns) n) (S O))
+                               else None))
+               else None)
+  else None
+
+(** val s_fzf_query : str **)
+
+let s_fzf_query =
+  (Zpos (XO (XI (XI (XO (XO (XI XH))))))) :: ((Zpos (XO (XI (XO (XI (XI (XI
+    XH))))))) :: ((Zpos (XO (XI (XI (XO (XO (XI XH))))))) :: ((Zpos (XO (XI
+    (XO (XI (XI XH)))))) :: ((Zpos (XI (XO (XO (XO (XI (XI
+    XH))))))) :: ((Zpos (XI (XO (XI (XO (XI (XI XH))))))) :: ((Zpos (XI (XO
+    (XI (XO (XO (XI XH))))))) :: ((Zpos (XO (XI (XO (XO (XI (XI
+    XH))))))) :: ((Zpos (XI (XO (XO (XI (XI (XI XH))))))) :: ((Zpos (XI (XO
+    (XI (XI (XI (XI XH))))))) :: [])))))))))
+
+(** val s_fzf_action : str **)
+
+let s_fzf_action =
+  (Zpos (XO (XI (XI (XO (XO (XI XH))))))) :: ((Zpos (XO (XI (XO (XI (XI (XI
+    XH))))))) :: ((Zpos (XO (XI (XI (XO (XO (XI XH))))))) :: ((Zpos (XO (XI
+    (XO (XI (XI XH)))))) :: ((Zpos (XI (XO (XO (XO (XO (XI
+    XH))))))) :: ((Zpos (XI (XI (XO (XO (XO (XI XH))))))) :: ((Zpos (XO (XO
+    (XI (XO (XI (XI XH))))))) :: ((Zpos (XI (XO (XO (XI (XO (XI
+    XH))))))) :: ((Zpos (XI (XI (XI (XI (XO (XI XH))))))) :: ((Zpos (XO (XI
+    (XI (XI (XO (XI XH))))))) :: ((Zpos (XI (XO (XI (XI (XI (XI
+    XH))))))) :: []))))))))))
+
+(** val s_fzf_prompt : str **)
+
+let s_fzf_prompt =
+  (Zpos (XO (XI (XI (XO (XO (XI XH))))))) :: ((Zpos (XO (XI (XO (XI (XI (XI
+    XH))))))) :: ((Zpos (XO (XI (XI (XO (XO (XI XH))))))) :: ((Zpos (XO (XI
+    (XO (XI (XI XH)))))) :: ((Zpos (XO (XO (XO (XO (XI (XI
+    XH))))))) :: ((Zpos (XO (XI (XO (XO (XI (XI XH))))))) :: ((Zpos (XI (XI
+    (XI (XI (XO (XI XH))))))) :: ((Zpos (XI (XO (XI (XI (XO (XI
+    XH))))))) :: ((Zpos (XO (XO (XO (XO (XI (XI XH))))))) :: ((Zpos (XO (XO
+    (XI (XO (XI (XI XH))))))) :: ((Zpos (XI (XO (XI (XI (XI (XI
+    XH))))))) :: []))))))))))
+
+(** val m_a3 : str -> nat option **)
+
+let m_a3 s =
+  if has_prefix s_fzf_query s
+  then Some (length s_fzf_query)
+  else if has_prefix s_fzf_action s
+       then Some (length s_fzf_action)
+       else if has_prefix s_fzf_prompt s
+            then Some (length s_fzf_prompt)
+            else None
+
+(** val opt_char : z -> str -> nat * str **)
+
+let opt_char c s = match s with
+| [] -> (O, s)
+| x :: r -> if Z.eqb x c then ((S O), r) else (O, s)
+
+(** val m_a4 : str -> nat option **)
+
+let m_a4 s =
+  let (n1, r1) = opt_char (Zpos (XI (XI (XO (XI (XO XH)))))) s in
+  let (n2, r2) = opt_char (Zpos (XO (XI (XI (XO (XO (XI XH))))))) r1 in
+  (match r2 with
+   | [] -> None
+   | c :: r3 ->
+     if Z.eqb c (Zpos (XO (XI (XI (XI (XO (XI XH)))))))
+     then let (n3, r4) = opt_char (Zpos (XO (XI (XI (XO (XO (XI XH))))))) r3
+          in
+          if closes r4
+          then Some (add (add (add (add n1 n2) (S O)) n3) (S O))
+          else None
+     else None)
+
+(** val match_at : str -> nat option **)
+
+let match_at = function
+| [] -> None
+| c :: r ->
+  if Z.eqb c c_lb
+  then (match m_a1 r with
+        | Some n -> Some (S n)
+        | None ->
+          (match m_a2 r with
+           | Some n -> Some (S n)
+           | None ->
+             (match m_a3 r with
+              | Some n -> Some (S n)
+              | None ->
+                (match m_a4 r with
+                 | Some n -> Some (S n)
+                 | None -> None))))
+  else None
+
+type piece =
+| PLit of str
+| PEsc of str
+| PPh of str
+
+(** val flush_lit : str -> piece list -> piece list **)
+
+let flush_lit lit rest =
+  match lit with
+  | [] -> rest
+  | _ :: _ -> (PLit (rev lit)) :: rest
+
+(** val scan : str -> nat -> str -> piece list **)
+
+let rec scan s skip lit =
+  match s with
+  | [] -> flush_lit lit []
+  | c :: r ->
+    (match skip with
+     | O ->
+       (match if Z.eqb c c_bs then match_at r else None with
+        | Some n -> flush_lit lit ((PEsc (firstn n r)) :: (scan r n []))
+        | None ->
+          (match match_at s with
+           | Some n0 ->
+             (match n0 with
+              | O -> scan r O (c :: lit)
+              | S n -> flush_lit lit ((PPh (firstn (S n) s)) :: (scan r n [])))
+           | None -> scan r O (c :: lit)))
+     | S k -> scan r k lit)
+
+type flags = { f_plus : bool; f_space : bool; f_number : bool; f_file : 
+               bool; f_raw : bool }
+
+(** val no_flags : flags **)
+
+let no_flags =
+  { f_plus = false; f_space = false; f_number = false; f_file = false;
+    f_raw = false }
+
+(** val pp_go : str -> flags -> str -> flags * str **)
+
+let rec pp_go s fl acc =
+  match s with
+  | [] -> (fl, (rev acc))
+  | c :: r ->
+    if Z.eqb c (Zpos (XI (XI (XO (XI (XO XH))))))
+    then pp_go r { f_plus = true; f_space = fl.f_space; f_number =
+           fl.f_number; f_file = fl.f_file; f_raw = fl.f_raw } acc
+    else if Z.eqb c (Zpos (XI (XI (XO (XO (XI (XI XH)))))))
+         then pp_go r { f_plus = fl.f_plus; f_space = true; f_number =
+                fl.f_number; f_file = fl.f_file; f_raw = fl.f_raw } acc
+         else if Z.eqb c (Zpos (XO (XI (XI (XI (XO (XI XH)))))))
+              then pp_go r { f_plus = fl.f_plus; f_space = fl.f_space;
+                     f_number = true; f_file = fl.f_file; f_raw = fl.f_raw }
+                     acc
+              else if Z.eqb c (Zpos (XO (XI (XI (XO (XO (XI XH)))))))
+                   then pp_go r { f_plus = fl.f_plus; f_space = fl.f_space;
+                          f_number = fl.f_number; f_file = true; f_raw =
+                          fl.f_raw } acc
+                   else if Z.eqb c (Zpos (XO (XI (XO (XO (XI (XI XH)))))))
+                        then pp_go r { f_plus = fl.f_plus; f_space =
+                               fl.f_space; f_number = fl.f_number; f_file =
+                               fl.f_file; f_raw = true } acc
+                        else pp_go r fl (c :: acc)
+
+(** val s_fzf_colon : str **)
+
+let s_fzf_colon =
+  (Zpos (XI (XI (XO (XI (XI (XI XH))))))) :: ((Zpos (XO (XI (XI (XO (XO (XI
+    XH))))))) :: ((Zpos (XO (XI (XO (XI (XI (XI XH))))))) :: ((Zpos (XO (XI
+    (XI (XO (XO (XI XH))))))) :: ((Zpos (XO (XI (XO (XI (XI XH)))))) :: []))))
+
+(** val parse_placeholder : str -> (flags * str) res **)
+
+let parse_placeholder m = match m with
+| [] -> Err OutOfRange
+| _ :: r ->
+  if has_prefix s_fzf_colon m
+  then Ok (no_flags, m)
+  else let (fl, t) = pp_go r no_flags [] in Ok (fl, (c_lb :: t))
+
+(** val is_digit : z -> bool **)
+
+let is_digit c =
+  (&&) (Z.leb (Zpos (XO (XO (XO (XO (XI XH)))))) c)
+    (Z.leb c (Zpos (XI (XO (XO (XI (XI XH)))))))
+
+(** val digits_val : z -> str -> z option **)
+
+let rec digits_val acc = function
+| [] -> Some acc
+| c :: r ->
+  if is_digit c
+  then digits_val
+         (Z.add (Z.mul acc (Zpos (XO (XI (XO XH)))))
+           (Z.sub c (Zpos (XO (XO (XO (XO (XI XH)))))))) r
+  else None
+
+(** val int_min : z **)
+
+let int_min =
+  Zneg (XO (XO (XO (XO (XO (XO (XO (XO (XO (XO (XO (XO (XO (XO (XO (XO (XO
+    (XO (XO (XO (XO (XO (XO (XO (XO (XO (XO (XO (XO (XO (XO (XO (XO (XO (XO
+    (XO (XO (XO (XO (XO (XO (XO (XO (XO (XO (XO (XO (XO (XO (XO (XO (XO (XO
+    (XO (XO (XO (XO (XO (XO (XO (XO (XO (XO
+    XH)))))))))))))))))))))))))))))))))))))))))))))))))))))))))))))))
+
+(** val int_max : z **)
+
+let int_max =
+  Zpos (XI (XI (XI (XI (XI (XI (XI (XI (XI (XI (XI (XI (XI (XI (XI (XI (XI
+    (XI (XI (XI (XI (XI (XI (XI (XI (XI (XI (XI (XI (XI (XI (XI (XI (XI (XI
+    (XI (XI (XI (XI (XI (XI (XI (XI (XI (XI (XI (XI (XI (XI (XI (XI (XI (XI
+    (XI (XI (XI (XI (XI (XI (XI (XI (XI
+    XH))))))))))))))))))))))))))))))))))))))))))))))))))))))))))))))
+
+(** val atoi : str -> z option **)
+
+let atoi s = match s with
+| [] ->
+  let neg = false in
+  (match s with
+   | [] -> None
+   | _ :: _ ->
+     (match digits_val Z0 s with
+      | Some v ->
+        let v0 = if neg then Z.opp v else v in
+        if (&&) (Z.leb int_min v0) (Z.leb v0 int_max) then Some v0 else None
+      | None -> None))
+| c :: r ->
+  if Z.eqb c (Zpos (XI (XO (XI (XI (XO XH))))))
+  then let neg = true in
+       (match r with
+        | [] -> None
+        | _ :: _ ->
+          (match digits_val Z0 r with
+           | Some v ->
+             let v0 = if neg then Z.opp v else v in
+             if (&&) (Z.leb int_min v0) (Z.leb v0 int_max)
+             then Some v0
+             else None
+           | None -> None))
+  else if Z.eqb c (Zpos (XI (XI (XO (XI (XO XH))))))
+       then let neg = false in
+            (match r with
+             | [] -> None
+             | _ :: _ ->
+               (match digits_val Z0 r with
+                | Some v ->
+                  let v0 = if neg then Z.opp v else v in
+                  if (&&) (Z.leb int_min v0) (Z.leb v0 int_max)
+                  then Some v0
+                  else None
+                | None -> None))
+       else let neg = false in
+            (match s with
+             | [] -> None
+             | _ :: _ ->
+               (match digits_val Z0 s with
+                | Some v ->
+                  let v0 = if neg then Z.opp v else v in
+                  if (&&) (Z.leb int_min v0) (Z.leb v0 int_max)
+                  then Some v0
+                  else None
+                | None -> None))
+
+(** val itoa_pos : nat -> z -> str -> str **)
+
+let rec itoa_pos fuel n acc =
+  match fuel with
+  | O -> acc
+  | S f ->
+    let acc0 =
+      (Z.add (Zpos (XO (XO (XO (XO (XI XH))))))
+        (Z.modulo n (Zpos (XO (XI (XO XH)))))) :: acc
+    in
+    if Z.eqb (Z.div n (Zpos (XO (XI (XO XH))))) Z0
+    then acc0
+    else itoa_pos f (Z.div n (Zpos (XO (XI (XO XH))))) acc0
+
+(** val bits : z -> nat **)
+
+let bits = function
+| Z0 -> O
+| Zpos p -> Pos.size_nat p
+| Zneg p -> Pos.size_nat p
+
+(** val itoa : z -> str **)
+
+let itoa n =
+  if Z.ltb n Z0
+  then (Zpos (XI (XO (XI (XI (XO
+         XH)))))) :: (itoa_pos (S (bits n)) (Z.opp n) [])
+  else itoa_pos (S (bits n)) n []
+
+(** val s_dd : str **)
+
+let s_dd =
+  (Zpos (XO (XI (XI (XI (XO XH)))))) :: ((Zpos (XO (XI (XI (XI (XO
+    XH)))))) :: [])
+
+(** val split_dd : str -> str -> str list **)
+
+let rec split_dd s cur =
+  match s with
+  | [] -> (rev cur) :: []
+  | c :: r ->
+    (match r with
+     | [] -> split_dd r (c :: cur)
+     | d :: r' ->
+       if (&&) (Z.eqb c (Zpos (XO (XI (XI (XI (XO XH)))))))
+            (Z.eqb d (Zpos (XO (XI (XI (XI (XO XH)))))))
+       then (rev cur) :: (split_dd r' [])
+       else split_dd r (c :: cur))
+
+type rng = z * z
+
+(** val new_range : z -> z -> rng **)
+
+let new_range b e =
+  let b0 =
+    if (&&) (Z.eqb b (Zpos XH)) (negb (Z.eqb e (Zpos XH))) then Z0 else b
+  in
+  let e0 = if Z.eqb e (Zneg XH) then Z0 else e in (b0, e0)
+
+(** val atoi_nz : str -> z option **)
+
+let atoi_nz s =
+  match atoi s with
+  | Some v -> if Z.eqb v Z0 then None else Some v
+  | None -> None
+
+(** val parse_range : str -> rng option **)
+
+let parse_range s =
+  if str_eqb s s_dd
+  then Some (new_range Z0 Z0)
+  else if has_prefix s_dd s
+       then (match atoi_nz (skipn (S (S O)) s) with
+             | Some e -> Some (new_range Z0 e)
+             | None -> None)
+       else if has_suffix s_dd s
+            then (match atoi_nz (firstn (sub (length s) (S (S O))) s) with
+                  | Some b -> Some (new_range b Z0)
+                  | None -> None)
+            else (match split_dd s [] with
+                  | [] -> None
+                  | a :: l ->
+                    (match l with
+                     | [] ->
+                       (match atoi_nz s with
+                        | Some n -> Some (new_range n n)
+                        | None -> None)
+                     | b :: l0 ->
+                       (match l0 with
+                        | [] ->
+                          (match atoi_nz a with
+                           | Some x ->
+                             (match atoi_nz b with
+                              | Some y ->
+                                if (&&) (Z.ltb x Z0) (Z.ltb Z0 y)
+                                then None
+                                else Some (new_range x y)
+                              | None -> None)
+                           | None -> None)
+                        | _ :: _ -> None)))
+
+(** val split_comma : str -> str -> str list **)
+
+let rec split_comma s cur =
+  match s with
+  | [] -> (rev cur) :: []
+  | c :: r ->
+    if Z.eqb c (Zpos (XO (XO (XI (XI (XO XH))))))
+    then (rev cur) :: (split_comma r [])
+    else split_comma r (c :: cur)
+
+(** val parse_ranges : str list -> rng list option **)
+
+let rec parse_ranges = function
+| [] -> Some []
+| e :: r ->
+  (match parse_range e with
+   | Some x ->
+     (match parse_ranges r with
+      | Some xs -> Some (x :: xs)
+      | None -> None)
+   | None -> None)
+
+(** val split_nth : str -> rng list option **)
+
+let split_nth s = match s with
+| [] -> None
+| _ :: _ ->
+  if forallb in_range s then parse_ranges (split_comma s []) else None
+
+type awk_state =
+| AwkNil
+| AwkBlack
+| AwkWhite
+
+(** val awk_white : z -> bool **)
+
+let awk_white c =
+  (||) (Z.eqb c (Zpos (XI (XO (XO XH)))))
+    (Z.eqb c (Zpos (XO (XO (XO (XO (XO XH)))))))
+
+(** val awk_go : str -> awk_state -> str -> str list -> str list **)
+
+let rec awk_go s st cur ret =
+  match s with
+  | [] -> (match st with
+           | AwkNil -> rev ret
+           | _ -> rev ((rev cur) :: ret))
+  | c :: r ->
+    (match st with
+     | AwkNil ->
+       if awk_white c
+       then awk_go r AwkNil cur ret
+       else awk_go r AwkBlack (c :: []) ret
+     | AwkBlack ->
+       awk_go r (if awk_white c then AwkWhite else AwkBlack) (c :: cur) ret
+     | AwkWhite ->
+       if awk_white c
+       then awk_go r AwkWhite (c :: cur) ret
+       else awk_go r AwkBlack (c :: []) ((rev cur) :: ret))
+
+(** val awk_tokens : str -> str list **)
+
+let awk_tokens s =
+  awk_go s AwkNil [] []
+
+(** val split_after : nat -> str -> str -> str -> str list res **)
+
+let rec split_after fuel sep s cur =
+  match fuel with
+  | O -> Err OutOfFuel
+  | S f ->
+    (match s with
+     | [] -> Ok ((rev cur) :: [])
+     | c :: r ->
+       (match strip_prefix sep s with
+        | Some rest ->
+          bind (split_after f sep rest []) (fun l -> Ok
+            ((app (rev cur) sep) :: l))
+        | None -> split_after f sep r (c :: cur)))
+
+(** val tokenize : str option -> str -> str list res **)
+
+let tokenize delim s =
+  match delim with
+  | Some d ->
+    (match d with
+     | [] -> Err BadInput
+     | _ :: _ -> split_after (S (length s)) d s [])
+  | None -> Ok (awk_tokens s)
+
+(** val sel_go : str list -> z -> z -> z -> str **)
+
+let rec sel_go ts i lo hi =
+  match ts with
+  | [] -> []
+  | t :: r ->
+    app (if (&&) (Z.leb lo i) (Z.leb i hi) then t else [])
+      (sel_go r (Z.add i (Zpos XH)) lo hi)
+
+(** val sel : str list -> z -> z -> str **)
+
+let sel ts lo hi =
+  sel_go ts (Zpos XH) lo hi
+
+(** val transform1 : str list -> rng -> str **)
+
+let transform1 ts r =
+  let n = Z.of_nat (length ts) in
+  let adj = fun x -> if Z.ltb x Z0 then Z.add (Z.add x n) (Zpos XH) else x in
+  let (b, e) = r in
+  if Z.eqb b e
+  then if Z.eqb b Z0 then concat ts else sel ts (adj b) (adj b)
+  else if Z.eqb b Z0
+       then sel ts (Zpos XH) (adj e)
+       else if Z.eqb e Z0 then sel ts (adj b) n else sel ts (adj b) (adj e)
+
+(** val transform_join : str list -> rng list -> str **)
+
+let transform_join ts rs =
+  concat (map (transform1 ts) rs)
+
+(** val ascii_space : z -> bool **)
+
+let ascii_space c =
+  (||)
+    ((&&) (Z.leb (Zpos (XI (XO (XO XH)))) c)
+      (Z.leb c (Zpos (XI (XO (XI XH))))))
+    (Z.eqb c (Zpos (XO (XO (XO (XO (XO XH)))))))
+
+(** val space_len : str -> nat **)
+
+let space_len = function
+| [] -> O
+| a :: r ->
+  if ascii_space a
+  then S O
+  else (match r with
+        | [] -> O
+        | b :: r' ->
+          if (&&) (Z.eqb a (Zpos (XO (XI (XO (XO (XO (XO (XI XH)))))))))
+               ((||) (Z.eqb b (Zpos (XI (XO (XI (XO (XO (XO (XO XH)))))))))
+                 (Z.eqb b (Zpos (XO (XO (XO (XO (XO (XI (XO XH))))))))))
+          then S (S O)
+          else (match r' with
+                | [] -> O
+                | c :: _ ->
+                  if (&&)
+                       ((&&)
+                         (Z.eqb a (Zpos (XI (XO (XO (XO (XO (XI (XI
+                           XH)))))))))
+                         (Z.eqb b (Zpos (XO (XI (XO (XI (XI (XO (XO
+                           XH))))))))))
+                       (Z.eqb c (Zpos (XO (XO (XO (XO (XO (XO (XO XH)))))))))
+                  then S (S (S O))
+                  else if (&&)
+                            ((&&)
+                              (Z.eqb a (Zpos (XO (XI (XO (XO (XO (XI (XI
+                                XH)))))))))
+                              (Z.eqb b (Zpos (XO (XO (XO (XO (XO (XO (XO
+                                XH))))))))))
+                            ((||)
+                              ((||)
+                                ((||)
+                                  ((&&)
+                                    (Z.leb (Zpos (XO (XO (XO (XO (XO (XO (XO
+                                      XH)))))))) c)
+                                    (Z.leb c (Zpos (XO (XI (XO (XI (XO (XO
+                                      (XO XH))))))))))
+                                  (Z.eqb c (Zpos (XO (XO (XO (XI (XO (XI (XO
+                                    XH))))))))))
+                                (Z.eqb c (Zpos (XI (XO (XO (XI (XO (XI (XO
+                                  XH))))))))))
+                              (Z.eqb c (Zpos (XI (XI (XI (XI (XO (XI (XO
+                                XH))))))))))
+                       then S (S (S O))
+                       else if (&&)
+                                 ((&&)
+                                   (Z.eqb a (Zpos (XO (XI (XO (XO (XO (XI (XI
+                                     XH)))))))))
+                                   (Z.eqb b (Zpos (XI (XO (XO (XO (XO (XO (XO
+                                     XH))))))))))
+                                 (Z.eqb c (Zpos (XI (XI (XI (XI (XI (XO (XO
+                                   XH)))))))))
+                            then S (S (S O))
+                            else if (&&)
+                                      ((&&)
+                                        (Z.eqb a (Zpos (XI (XI (XO (XO (XO
+                                          (XI (XI XH)))))))))
+                                        (Z.eqb b (Zpos (XO (XO (XO (XO (XO
+                                          (XO (XO XH))))))))))
+                                      (Z.eqb c (Zpos (XO (XO (XO (XO (XO (XO
+                                        (XO XH)))))))))
+                                 then S (S (S O))
+                                 else O))
+
+(** val space_len_rev : str -> nat **)
+
+let space_len_rev = function
+| [] -> O
+| c :: r ->
+  if ascii_space c
+  then S O
+  else (match r with
+        | [] -> O
+        | b :: r' ->
+          if (&&) (Z.eqb b (Zpos (XO (XI (XO (XO (XO (XO (XI XH)))))))))
+               ((||) (Z.eqb c (Zpos (XI (XO (XI (XO (XO (XO (XO XH)))))))))
+                 (Z.eqb c (Zpos (XO (XO (XO (XO (XO (XI (XO XH))))))))))
+          then S (S O)
+          else (match r' with
+                | [] -> O
+                | a :: _ ->
+                  if (&&)
+                       ((&&)
+                         (Z.eqb a (Zpos (XI (XO (XO (XO (XO (XI (XI
+                           XH)))))))))
+                         (Z.eqb b (Zpos (XO (XI (XO (XI (XI (XO (XO
+                           XH))))))))))
+                       (Z.eqb c (Zpos (XO (XO (XO (XO (XO (XO (XO XH)))))))))
+                  then S (S (S O))
+                  else if (&&)
+                            ((&&)
+                              (Z.eqb a (Zpos (XO (XI (XO (XO (XO (XI (XI
+                                XH)))))))))
+                              (Z.eqb b (Zpos (XO (XO (XO (XO (XO (XO (XO
+                                XH))))))))))
+                            ((||)
+                              ((||)
+                                ((||)
+                                  ((&&)
+                                    (Z.leb (Zpos (XO (XO (XO (XO (XO (XO (XO
+                                      XH)))))))) c)
+                                    (Z.leb c (Zpos (XO (XI (XO (XI (XO (XO
+                                      (XO XH))))))))))
+                                  (Z.eqb c (Zpos (XO (XO (XO (XI (XO (XI (XO
+                                    XH))))))))))
+                                (Z.eqb c (Zpos (XI (XO (XO (XI (XO (XI (XO
+                                  XH))))))))))
+                              (Z.eqb c (Zpos (XI (XI (XI (XI (XO (XI (XO
+                                XH))))))))))
+                       then S (S (S O))
+                       else if (&&)
+                                 ((&&)
+                                   (Z.eqb a (Zpos (XO (XI (XO (XO (XO (XI (XI
+                                     XH)))))))))
+                                   (Z.eqb b (Zpos (XI (XO (XO (XO (XO (XO (XO
+                                     XH))))))))))
+                                 (Z.eqb c (Zpos (XI (XI (XI (XI (XI (XO (XO
+                                   XH)))))))))
+                            then S (S (S O))
+                            else if (&&)
+                                      ((&&)
+                                        (Z.eqb a (Zpos (XI (XI (XO (XO (XO
+                                          (XI (XI XH)))))))))
+                                        (Z.eqb b (Zpos (XO (XO (XO (XO (XO
+                                          (XO (XO XH))))))))))
+                                      (Z.eqb c (Zpos (XO (XO (XO (XO (XO (XO
+                                        (XO XH)))))))))
+                                 then S (S (S O))
+                                 else O))
+
+(** val trim_with : (str -> nat) -> nat -> str -> str **)
+
+let rec trim_with f fuel s =
+  match fuel with
+  | O -> s
+  | S k -> (match f s with
+            | O -> s
+            | S n0 -> trim_with f k (skipn (S n0) s))
+
+(** val trim_space : str -> str **)
+
+let trim_space s =
+  let l = trim_with space_len (length s) s in
+  rev (trim_with space_len_rev (length l) (rev l))
+
+type item = z * str
+
+(** val min_int32 : z **)
+
+let min_int32 =
+  Zneg (XO (XO (XO (XO (XO (XO (XO (XO (XO (XO (XO (XO (XO (XO (XO (XO (XO
+    (XO (XO (XO (XO (XO (XO (XO (XO (XO (XO (XO (XO (XO (XO
+    XH)))))))))))))))))))))))))))))))
+
+type params = { p_delim : str option; p_printsep : str; p_force_plus : 
+                bool; p_query : str; p_current : item list;
+                p_selected : item list; p_action : str; p_prompt : str;
+                p_fish : bool }
+
+type outp =
+| OText of str
+| OWords of (str * str) list
+
+(** val render : outp -> str **)
+
+let render = function
+| OText s -> s
+| OWords l -> join_sp (map fst l)
+
+(** val s_q : str **)
+
+let s_q =
+  (Zpos (XI (XI (XO (XI (XI (XI XH))))))) :: ((Zpos (XI (XO (XO (XO (XI (XI
+    XH))))))) :: ((Zpos (XI (XO (XI (XI (XI (XI XH))))))) :: []))
+
+(** val s_q_colon : str **)
+
+let s_q_colon =
+  (Zpos (XI (XI (XO (XI (XI (XI XH))))))) :: ((Zpos (XI (XO (XO (XO (XI (XI
+    XH))))))) :: ((Zpos (XO (XI (XO (XI (XI XH)))))) :: []))
+
+(** val s_braces : str **)
+
+let s_braces =
+  (Zpos (XI (XI (XO (XI (XI (XI XH))))))) :: ((Zpos (XI (XO (XI (XI (XI (XI
+    XH))))))) :: [])
+
+(** val s_m_query : str **)
+
+let s_m_query =
+  c_lb :: s_fzf_query
+
+(** val s_m_action : str **)
+
+let s_m_action =
+  c_lb :: s_fzf_action
+
+(** val s_m_prompt : str **)
+
+let s_m_prompt =
+  c_lb :: s_fzf_prompt
+
+(** val s_empty_quotes : str **)
+
+let s_empty_quotes =
+  (Zpos (XI (XI (XI (XO (XO XH)))))) :: ((Zpos (XI (XI (XI (XO (XO
+    XH)))))) :: [])
+
+(** val quoted : params -> str -> str * str **)
+
+let quoted p v =
+  ((quote_entry p.p_fish v), v)
+
+(** val repl_item : params -> flags -> item -> str * str **)
+
+let repl_item p fl = function
+| (idx, text) ->
+  if fl.f_number
+  then if Z.eqb idx min_int32
+       then (s_empty_quotes, [])
+       else ((itoa idx), (itoa idx))
+  else if (||) fl.f_file fl.f_raw then (text, text) else quoted p text
+
+(** val field_value : params -> flags -> rng list -> str -> str res **)
+
+let field_value p fl rs text =
+  bind (tokenize p.p_delim text) (fun ts ->
+    let s = transform_join ts rs in
+    let s0 = match p.p_delim with
+             | Some d -> trim_suffix s d
+             | None -> s in
+    Ok (if fl.f_space then s0 else trim_space s0))
+
+(** val repl_fields :
+    params -> flags -> rng list -> item -> (str * str) res **)
+
+let repl_fields p fl rs it =
+  bind (field_value p fl rs (snd it)) (fun v -> Ok
+    (if (||) fl.f_file fl.f_raw then (v, v) else quoted p v))
+
+(** val map_res : ('a1 -> 'a2 res) -> 'a1 list -> 'a2 list res **)
+
+let rec map_res f = function
+| [] -> Ok []
+| x :: r -> bind (f x) (fun y -> bind (map_res f r) (fun ys -> Ok (y :: ys)))
+
+(** val over_items :
+    params -> flags -> bool -> (item -> (str * str) res) -> str list ->
+    ((outp * str list) * str list) res **)
+
+let over_items p fl raw f temps =
+  let items =
+    if (||) fl.f_plus p.p_force_plus then p.p_selected else p.p_current
+  in
+  bind (map_res f items) (fun reps ->
+    if fl.f_file
+    then (match temps with
+          | [] -> Err BadInput
+          | name :: rest ->
+            Ok (((OText name),
+              ((app (join_str p.p_printsep (map fst reps)) p.p_printsep) :: [])),
+              rest))
+    else if raw
+         then Ok (((OText (join_sp (map fst reps))), []), temps)
+         else Ok (((OWords reps), []), temps))
+
+(** val expand_ph :
+    params -> str -> str list -> ((outp * str list) * str list) res **)
+
+let expand_ph p m temps =
+  bind (parse_placeholder m) (fun fm ->
+    let (fl, mm) = fm in
+    if (||) (str_eqb mm s_q) (str_eqb mm s_m_query)
+    then Ok (((OWords ((quoted p p.p_query) :: [])), []), temps)
+    else if has_prefix s_q_colon mm
+         then bind (mid (S (S (S O))) mm) (fun body ->
+                match split_nth body with
+                | Some rs ->
+                  let s = transform_join (awk_tokens p.p_query) rs in
+                  Ok (((OWords
+                  ((quoted p (if fl.f_space then s else trim_space s)) :: [])),
+                  []), temps)
+                | None -> Ok (((OText mm), []), temps))
+         else if str_eqb mm s_braces
+              then over_items p fl
+                     ((&&) (negb fl.f_number) ((||) fl.f_file fl.f_raw))
+                     (fun it -> Ok (repl_item p fl it)) temps
+              else if str_eqb mm s_m_action
+                   then Ok (((OText p.p_action), []), temps)
+                   else if str_eqb mm s_m_prompt
+                        then Ok (((OWords ((quoted p p.p_prompt) :: [])),
+                               []), temps)
+                        else bind (mid (S O) mm) (fun body ->
+                               match parse_ranges (split_comma body []) with
+                               | Some rs ->
+                                 over_items p fl ((||) fl.f_file fl.f_raw)
+                                   (repl_fields p fl rs) temps
+                               | None -> Ok (((OText mm), []), temps)))
+
+(** val expand_all :
+    params -> piece list -> str list -> (outp list * str list) res **)
+
+let rec expand_all p ps temps =
+  match ps with
+  | [] -> Ok ([], [])
+  | p0 :: r ->
+    (match p0 with
+     | PLit t ->
+       bind (expand_all p r temps) (fun x -> Ok (((OText t) :: (fst x)),
+         (snd x)))
+     | PEsc m ->
+       bind (expand_all p r temps) (fun x -> Ok (((OText m) :: (fst x)),
+         (snd x)))
+     | PPh m ->
+       bind (expand_ph p m temps) (fun y ->
+         let (p1, temps') = y in
+         let (o, files) = p1 in
+         bind (expand_all p r temps') (fun x -> Ok ((o :: (fst x)),
+           (app files (snd x))))))
+
+(** val replace_structured :
+    params -> str -> str list -> (outp list * str list) res **)
+
+let replace_structured p template temps =
+  expand_all p (scan template O []) temps
+
+(** val replace_placeholder :
+    params -> str -> str list -> (str * str list) res **)
+
+let replace_placeholder p template temps =
+  bind (replace_structured p template temps) (fun x -> Ok
+    ((concat (map render (fst x))), (snd x)))
+
+(** val vopt_words : str list option -> val0 **)
+
+let vopt_words = function
+| Some ws -> VL ((vstrs ws) :: [])
+| None -> VL []
+
+(** val as_item : val0 -> item **)
+
+let as_item v =
+  ((as_int (arg v O)), (as_str (arg v (S O))))
+
+(** val as_optstr : val0 -> str option **)
+
+let as_optstr v =
+  match as_list v with
+  | [] -> None
+  | d :: _ -> Some (as_str d)
+
+(** val as_params : val0 -> params **)
+
+let as_params v =
+  { p_delim = (as_optstr (arg v O)); p_printsep = (as_str (arg v (S O)));
+    p_force_plus = (as_bool (arg v (S (S O)))); p_query =
+    (as_str (arg v (S (S (S O))))); p_current =
+    (map as_item (as_list (arg v (S (S (S (S O))))))); p_selected =
+    (map as_item (as_list (arg v (S (S (S (S (S O)))))))); p_action =
+    (as_str (arg v (S (S (S (S (S (S O)))))))); p_prompt =
+    (as_str (arg v (S (S (S (S (S (S (S O))))))))); p_fish =
+    (as_bool (arg v (S (S (S (S (S (S (S (S O)))))))))) }
+
+(** val as_seg : val0 -> seg **)
+
+let as_seg v =
+  if Z.eqb (as_int (arg v O)) Z0
+  then SLit (as_str (arg v (S O)))
+  else SWords (as_strs (arg v (S O)))
+
+(** val v_outp : outp -> val0 **)
+
+let v_outp = function
+| OText s -> VL ((VI Z0) :: ((vstr s) :: []))
+| OWords l ->
+  VL ((VI (Zpos XH)) :: ((VL
+    (map (fun ev -> VL ((vstr (fst ev)) :: ((vstr (snd ev)) :: []))) l)) :: []))
+
+(** val v_piece : piece -> val0 **)
+
+let v_piece = function
+| PLit t -> VL ((VI Z0) :: ((vstr t) :: []))
+| PEsc m -> VL ((VI (Zpos XH)) :: ((vstr m) :: []))
+| PPh m -> VL ((VI (Zpos (XO XH))) :: ((vstr m) :: []))
+
+(** val dispatch_placeholder : z -> val0 -> val0 option **)
+
+let dispatch_placeholder op a =
+  if Z.eqb op (Zpos (XI (XO (XO (XO (XI (XI (XO (XI (XO (XO XH)))))))))))
+  then Some
+         (match replace_placeholder (as_params (arg a O))
+                  (as_str (arg a (S O))) (as_strs (arg a (S (S O)))) with
+          | Ok a0 ->
+            let (out, files) = a0 in VL ((vstr out) :: ((vstrs files) :: []))
+          | Err _ -> verr)
+  else if Z.eqb op (Zpos (XO (XI (XO (XO (XI (XI (XO (XI (XO (XO XH)))))))))))
+       then Some (vopt_words (sh_words (as_str a)))
+       else if Z.eqb op (Zpos (XI (XI (XO (XO (XI (XI (XO (XI (XO (XO
+                 XH)))))))))))
+            then Some (vopt_words (template_words (map as_seg (as_list a))))
+            else if Z.eqb op (Zpos (XO (XO (XI (XO (XI (XI (XO (XI (XO (XO
+                      XH)))))))))))
+                 then Some
+                        (match replace_structured (as_params (arg a O))
+                                 (as_str (arg a (S O)))
+                                 (as_strs (arg a (S (S O)))) with
+                         | Ok a0 -> let (outs, _) = a0 in VL (map v_outp outs)
+                         | Err _ -> verr)
+                 else if Z.eqb op (Zpos (XI (XO (XI (XO (XI (XI (XO (XI (XO
+                           (XO XH)))))))))))
+                      then Some (vstr (escape_single_quote (as_str a)))
+                      else if Z.eqb op (Zpos (XO (XI (XI (XO (XI (XI (XO (XI
+                                (XO (XO XH)))))))))))
+                           then Some
+                                  (vstr
+                                    (quote_entry (as_bool (arg a O))
+                                      (as_str (arg a (S O)))))
+                           else if Z.eqb op (Zpos (XI (XI (XI (XO (XI (XI (XO
+                                     (XI (XO (XO XH)))))))))))
+                                then Some
+                                       (vstr
+                                         (tmux_arg_str (as_str (arg a O))
+                                           (as_strs (arg a (S O)))))
+                                else if Z.eqb op (Zpos (XO (XO (XO (XI (XI
+                                          (XI (XO (XI (XO (XO XH)))))))))))
+                                     then Some
+                                            (vstr
+                                              (export_line (as_str (arg a O))
+                                                (as_str (arg a (S O)))))
+                                     else if Z.eqb op (Zpos (XI (XO (XO (XI
+                                               (XI (XI (XO (XI (XO (XO
+                                               XH)))))))))))
+                                          then Some (VL
+                                                 (map v_piece
+                                                   (scan (as_str a) O [])))
+                                          else None
+
 (** val dispatch : z -> val0 -> val0 **)
 
 let dispatch op a =
   match dispatch_algo op a with
   | Some v -> v
-  | None -> (match dispatch_history op a with
-             | Some v -> v
-             | None -> verr)
+  | None ->
+    (match dispatch_history op a with
+     | Some v -> v
+     | None ->
+       (match dispatch_placeholder op a with
+        | Some v -> v
+        | None -> verr))
